@@ -6,4 +6,5 @@ EXTENDS Ecs
 \* (first octet < 128: TLC integers are 32-bit signed)
 MCClients == 1..6
 MCAddr == (1 :> 1647535114 @@ 2 :> 1647535304 @@ 3 :> 1647535365 @@ 4 :> 1649213441 @@ 5 :> 167838211 @@ 6 :> 1647509513)
+AsBuilt == FALSE
 =============================================================================
